@@ -7,6 +7,7 @@ import (
 	"strconv"
 	"strings"
 	"sync"
+	"time"
 
 	"github.com/mgtv-tech/redis-GunYu/verifshim/vnet"
 )
@@ -36,6 +37,7 @@ type connState struct {
 	buf       []byte
 	capaPsync bool
 	streaming bool
+	ready     bool  // the payload after the PSYNC reply line has been released (see DataDelay)
 	next      int64 // next stream offset to send
 	hist      *History
 	lastAck   int64
@@ -62,6 +64,13 @@ type Server struct {
 	// OnPSync is called (server lock held, before the reply is pushed) for every
 	// PSYNC. It must not call back into the server.
 	OnPSync func(p *PSync)
+
+	// DataDelay, when > 0, delivers what follows the PSYNC reply line (the RDB payload
+	// after "$<len>", the backlog bytes after +CONTINUE) that much later on the clock of
+	// the caller (inside a synctest bubble: virtual time). The replica's cache writer
+	// and cache reader start at the same instant; with the payload arriving strictly
+	// later the reader is always already waiting for it, whatever the OS scheduler does.
+	DataDelay time.Duration
 
 	// MachineryErrors collects protocol problems of the double itself.
 	MachineryErrors []string
@@ -319,19 +328,38 @@ func (s *Server) psync(cs *connState, argv []string) {
 		} else {
 			cs.c.Push([]byte("+CONTINUE\r\n"))
 		}
-	} else {
+	}
+	var rdb []byte
+	if !grant {
 		cs.c.Push([]byte(fmt.Sprintf("+FULLRESYNC %s %d\r\n", s.cur.ReplID, rec.From)))
-		rdb := s.cur.Snapshot(s.cur.NumCmds())
+		rdb = s.cur.Snapshot(s.cur.NumCmds())
 		cs.c.Push([]byte(fmt.Sprintf("$%d\r\n", len(rdb))))
-		cs.c.Push(rdb)
 	}
 	cs.streaming = true
 	cs.next = rec.From
-	s.feed(cs)
+	payload := func() {
+		if cs.closed {
+			return
+		}
+		if rdb != nil {
+			cs.c.Push(rdb)
+		}
+		cs.ready = true
+		s.feed(cs)
+	}
+	if s.DataDelay > 0 {
+		time.AfterFunc(s.DataDelay, func() {
+			s.mu.Lock()
+			defer s.mu.Unlock()
+			payload()
+		})
+		return
+	}
+	payload()
 }
 
 func (s *Server) feed(cs *connState) {
-	if !cs.streaming || cs.closed || cs.hist != s.cur {
+	if !cs.streaming || !cs.ready || cs.closed || cs.hist != s.cur {
 		return
 	}
 	if end := s.cur.Len(); cs.next < end {
